@@ -301,9 +301,10 @@ structure State where
 
 def init : State := ⟨[]⟩
 
-/-- `choose` = which element `set.pop()` picks, as a function of the abstract set (D20: an
-assumption that CPython does not satisfy across snapshot rebuilds). -/
-def step (choose : PySet.S → Int) (s : State) : SetOp → State × Res
+/-- The battery relative to an arbitrary rule `choose` by which `pop` picks its element as a function of
+the abstract set.  (Before the D20 repair `pop` was `self.__data.pop()`, whose choice is NOT such a
+function; kept for the generic theorems and the counterexample.) -/
+def stepWith (choose : PySet.S → Int) (s : State) : SetOp → State × Res
   | .reset v =>                       -- assert isinstance(newData, set); self.__data = newData
     match v with
     | .set l => (⟨PySet.ofList l⟩, .ok .none)
@@ -323,6 +324,24 @@ def step (choose : PySet.S → Int) (s : State) : SetOp → State × Res
   | .rawData => (s, .ok (.set s.data))
   | .len => (s, .ok (.int s.data.length))
   | .contains x => (s, .ok (.bool (PySet.contains s.data x)))
+
+/-- The battery as it is (D20 repaired):
+```
+def pop(self):
+    if not self.__data: raise KeyError('pop from an empty set')
+    item = min(self.__data, key=lambda x: (type(x).__name__, repr(x)))
+    self.__data.remove(item)
+    return item
+``` -/
+def step (s : State) : SetOp → State × Res
+  | .pop =>
+    if s.data.isEmpty then (s, .err .KeyError)
+    else
+      let item := PySet.minRepr s.data
+      match PySet.remove s.data item with
+      | .ok d => (⟨d⟩, .ok (.int item))
+      | .error e => (s, .err e)
+  | o => stepWith PySet.minRepr s o
 
 def contents (s : State) : Val := .set s.data
 def serialize (s : State) : AttrDict := [("_ReplSet__data", .set s.data)]
